@@ -12,6 +12,9 @@ class Variant:
         self.layout = Layout(comp, alloc)
         funcs = {f: comp.funcs[f]['lines'] for f in comp.order if comp.funcs[f]['has_code'] and not comp.funcs[f]['inline']}
         self.prog = Program(funcs, self.layout.sym, entry=entry)
+        for f in self.prog.func_range:
+            for ins, d in self.prog.branch_displacements(f):
+                if not -128 <= d <= 127: raise AsmError('branch out of range (%d bytes) in %s: %s' % (d, f, ins.raw.strip()))
         self.hw, self.ports = hw, ports
 
     def pointer_vars(self):
